@@ -126,8 +126,10 @@ Proof.
       + intros j t f Hp. case_upd j i; cbn in *; [discriminate|eauto].
       + intros j f Hp. case_upd j i; cbn in *; [discriminate|eauto]. }
     destruct tk.
-    + injection H as <-. apply Hcons. destruct (reg_lookup (reg s) (c_op (callers s i))); auto.
+    + injection H as <-. apply Hcons. destruct (c_op (callers s i) <? 0); [auto|].
+      destruct (reg_lookup (reg s) (c_op (callers s i))); auto.
     + destruct (c_data (callers s i)); [| injection H as <-; touch Ep |];
+        (destruct (c_op (callers s i) <? 0); [injection H as <-; touch Ep|]);
         (destruct (reg_lookup (reg s) (c_op (callers s i))); injection H as <-; [touch Ep | apply Hcons; auto]).
   - (* ERelease *)
     destruct (Nat.ltb i (ncallers s)) eqn:Elt; [|discriminate]. cbn [negb] in H.
@@ -301,12 +303,13 @@ Lemma unregistered_503_inert b s op :
   rd s = RIdle -> reg_lookup (reg s) op = None -> step KNats b s (EArrive503 op) = Some s.
 Proof. intros Hr Hl. cbn [step]. unfold lookup_step. cbn [f_op na_frame]. now rewrite Hr, Hl. Qed.
 
-(** with pairwise distinct op ids, a caller in flight is registered under its own op id, and one
-    that is not in flight (not started, or finished) is not registered *)
+(** with pairwise distinct op ids, a caller in flight (with a well-formed op id) is registered under its
+    own op id, and one that is not in flight (not started, or finished) - or whose op id is malformed
+    (negative in the model) - is not registered *)
 Definition reg_ok (ops : nat -> Z) (n : nat) (s : st) : Prop :=
   forall i, (i < n)%nat ->
-    (in_flight (c_phase (callers s i)) -> reg_lookup (reg s) (ops i) = Some i)
-    /\ (~ in_flight (c_phase (callers s i)) -> reg_lookup (reg s) (ops i) = None).
+    (in_flight (c_phase (callers s i)) -> 0 <= ops i -> reg_lookup (reg s) (ops i) = Some i)
+    /\ (~ in_flight (c_phase (callers s i)) \/ ops i < 0 -> reg_lookup (reg s) (ops i) = None).
 
 (* a step that rewrites only caller i0 without changing whether it is in flight, registry untouched *)
 Lemma reg_ok_touch ops n s i0 c' r :
@@ -315,7 +318,7 @@ Lemma reg_ok_touch ops n s i0 c' r :
 Proof.
   intros Hok Hiff i Hi. destruct (Hok i Hi) as [Ha Hb]. cbn.
   destruct (Nat.eq_dec i i0) as [->|Hne]; [rewrite upd_same | rewrite upd_other by assumption; split; assumption].
-  split; intros X; [apply Ha | apply Hb]; tauto.
+  split; [intros X; apply Ha; tauto | intros X; apply Hb; tauto].
 Qed.
 
 Ltac rtouch Ep := unfold with_rd, with_callers, with_reg; cbn [callers ncallers reg rd]; apply reg_ok_touch; [assumption | cbn; rewrite ?Ep; cbn; tauto].
@@ -330,18 +333,28 @@ Proof.
     destruct (Nat.ltb i0 (ncallers s)) eqn:Elt; [|discriminate]. cbn [negb] in H.
     apply Nat.ltb_lt in Elt. rewrite Hn in Elt.
     destruct (c_phase (callers s i0)) eqn:Ep; try discriminate.
-    destruct (Hok i0 Elt) as [_ Hb0]. rewrite Ep in Hb0. specialize (Hb0 (fun x => x)).
-    assert (Hcons : reg_ok ops n (with_reg (with_callers s (upd (callers s) i0 (set_phase (callers s i0) CParked)))
+    destruct (Hok i0 Elt) as [_ Hb0]. rewrite Ep in Hb0. specialize (Hb0 (or_introl (fun x => x))).
+    assert (Hcons : 0 <= ops i0 ->
+              reg_ok ops n (with_reg (with_callers s (upd (callers s) i0 (set_phase (callers s i0) CParked)))
                                            ((c_op (callers s i0), i0) :: reg s))).
-    { intros i Hi. destruct (Hok i Hi) as [Ha Hb]. cbn. rewrite Hop.
+    { intros Hwf i Hi. destruct (Hok i Hi) as [Ha Hb]. cbn. rewrite Hop.
       destruct (Nat.eq_dec i i0) as [->|Hne].
-      + rewrite upd_same. cbn. rewrite Z.eqb_refl. split; [reflexivity|intros X; exfalso; apply X; exact I].
+      + rewrite upd_same. cbn. rewrite Z.eqb_refl. split; [reflexivity|intros [X|X]; [exfalso; apply X; exact I | lia]].
       + rewrite upd_other by assumption.
         replace (ops i0 =? ops i) with false; [split; assumption|].
         symmetry. apply Z.eqb_neq. intros E. apply Hne. symmetry. now apply Hd. }
-    rewrite Hop, Hb0 in H. destruct tk.
-    + injection H as <-. rewrite <- (Hop i0). exact Hcons.
-    + destruct (c_data (callers s i0)); injection H as <-; try (rewrite <- (Hop i0); exact Hcons); rtouch Ep.
+    (* malformed op id on the adapter: in flight, nothing registered *)
+    assert (Hbad : ops i0 < 0 ->
+              reg_ok ops n (with_reg (with_callers s (upd (callers s) i0 (set_phase (callers s i0) CParked))) (reg s))).
+    { intros Hneg i Hi. destruct (Hok i Hi) as [Ha Hb]. cbn.
+      destruct (Nat.eq_dec i i0) as [->|Hne]; [rewrite upd_same | rewrite upd_other by assumption; split; assumption].
+      cbn. split; [intros _ X; lia | intros _; exact Hb0]. }
+    rewrite Hop in H. destruct (ops i0 <? 0) eqn:Eneg; [apply Z.ltb_lt in Eneg | apply Z.ltb_ge in Eneg].
+    + destruct tk; [injection H as <-; exact (Hbad Eneg)|].
+      destruct (c_data (callers s i0)); injection H as <-; rtouch Ep.
+    + rewrite Hb0 in H. destruct tk.
+      * injection H as <-. rewrite <- (Hop i0). exact (Hcons Eneg).
+      * destruct (c_data (callers s i0)); injection H as <-; try (rewrite <- (Hop i0); exact (Hcons Eneg)); rtouch Ep.
   - (* ERelease *)
     destruct (Nat.ltb i0 (ncallers s)) eqn:Elt; [|discriminate]. cbn [negb] in H.
     destruct (c_phase (callers s i0)) eqn:Ep; try discriminate.
@@ -433,6 +446,7 @@ Proof.
   - destruct (Nat.ltb i0 (ncallers s)) eqn:Elt; [|discriminate]. cbn [negb] in H.
     destruct (c_phase (callers s i0)) eqn:Ep; try discriminate.
     destruct (c_data (callers s i0)); [| injection H as <-; otouch Ep |];
+      (destruct (c_op (callers s i0) <? 0); [injection H as <-; otouch Ep|]);
       (destruct (reg_lookup (reg s) (c_op (callers s i0))) eqn:El; injection H as <-; [otouch Ep|]);
       (intros i Hi; cbn in *; destruct (Nat.eq_dec i i0) as [->|Hne];
        [rewrite upd_same; cbn; now rewrite Z.eqb_refl |
@@ -502,8 +516,25 @@ Lemma nats_register_error_inert b s i j :
     /\ reg s' = reg s /\ rd s' = rd s /\ (forall k, k <> i -> callers s' k = callers s k).
 Proof.
   intros Hi Hp Hd Hl. cbn [step]. apply Nat.ltb_lt in Hi. rewrite Hi. cbn [negb]. rewrite Hp, Hl.
-  destruct (c_data (callers s i)); try congruence;
+  destruct (c_data (callers s i)); try congruence; destruct (c_op (callers s i) <? 0);
     (eexists; split; [reflexivity|]; cbn; rewrite upd_same; repeat split; auto; intros k Hk; now rewrite upd_other).
+Qed.
+
+(** a request whose FContext carries a malformed op id (negative in the model) registers nothing: on
+    NATS it returns Register's error at once, on the adapter (which ignores that error) it goes on
+    without a registration; either way registry, reader and all other requests are untouched *)
+Lemma malformed_opid_registers_nothing tk b s i :
+  (i < ncallers s)%nat -> c_phase (callers s i) = CNew -> c_op (callers s i) < 0 ->
+  (tk = KNats -> c_data (callers s i) <> DEmpty) ->
+  exists s', step tk b s (ERegister i) = Some s'
+    /\ c_phase (callers s' i) = match tk with KNats => CDone ORegErr | KAdapter => CParked end
+    /\ reg s' = reg s /\ rd s' = rd s /\ (forall k, k <> i -> callers s' k = callers s k).
+Proof.
+  intros Hi Hp Hneg Hd. cbn [step]. apply Nat.ltb_lt in Hi. rewrite Hi. cbn [negb]. rewrite Hp.
+  apply Z.ltb_lt in Hneg. rewrite Hneg. destruct tk.
+  - eexists; split; [reflexivity|]; cbn; rewrite upd_same; repeat split; auto; intros k Hk; now rewrite upd_other.
+  - specialize (Hd eq_refl). destruct (c_data (callers s i)); try congruence;
+      (eexists; split; [reflexivity|]; cbn; rewrite upd_same; repeat split; auto; intros k Hk; now rewrite upd_other).
 Qed.
 
 (** ** C06: the reader always has an enabled step (repaired dispatch) *)
@@ -657,7 +688,7 @@ Lemma done_not_registered tk b ops dl dk n evs s i o :
   c_phase (callers s i) = CDone o -> reg_lookup (reg s) (ops i) = None.
 Proof.
   intros Hd H Hi Hp. destruct (run_reg_ok tk b ops dl dk n evs s Hd H i Hi) as [_ Hb].
-  apply Hb. rewrite Hp. intros [].
+  apply Hb. left. rewrite Hp. intros [].
 Qed.
 
 (** ** frames for requests that already left their select change nobody's outcome *)
@@ -707,6 +738,7 @@ Proof.
     rewrite <- E6, <- Hr, <- E1.
     destruct tk; [injection H as <-; fin Upd Hr Hd E1 E5 Ep|].
     destruct (c_data (callers s1 i)) eqn:Edk; [| injection H as <-; fin Upd Hr Hd E1 E5 Ep |];
+      (destruct (c_op (callers s1 i) <? 0); [injection H as <-; fin Upd Hr Hd E1 E5 Ep|]);
       (destruct (reg_lookup (reg s1) (c_op (callers s1 i))); injection H as <-; fin Upd Hr Hd E1 E5 Ep).
   - rewrite <- Hn. destruct (Nat.ltb i (ncallers s1)); [|discriminate]. cbn [negb] in *.
     destruct (Hc i) as (E1 & E2 & E3 & E4 & E6 & E5). rewrite <- E2.
@@ -866,6 +898,7 @@ Proof.
     destruct (c_phase (callers s i)) eqn:Ep; try discriminate.
     destruct tk; [injection H as <-; ptouch Ep|].
     destruct (c_data (callers s i)); [| injection H as <-; ptouch Ep |];
+      (destruct (c_op (callers s i) <? 0); [injection H as <-; ptouch Ep|]);
       (destruct (reg_lookup (reg s) (c_op (callers s i))); injection H as <-; ptouch Ep).
   - destruct (Nat.ltb i (ncallers s)) eqn:Elt; [|discriminate]. cbn [negb] in H.
     destruct (c_phase (callers s i)) eqn:Ep; try discriminate.
